@@ -247,14 +247,25 @@ class Session:
 
         t = self.t
         pos = self.g.position
+        # the probes are evaluated in alternating order: the last point handed to apply_transform / reverse_transform
+        # in one observation is the first one handed to it in the next (a remembered result would be reused)
+        self._flip = not getattr(self, "_flip", False)
+        order = list(range(len(self.probes)))
+        if self._flip:
+            order.reverse()
+        ap, rv = {}, {}
+        for i in order:
+            ap[i] = [float(c) for c in t.apply_transform(Point(*self.probes[i]))]
+        for i in order:
+            rv[i] = [float(c) for c in t.reverse_transform(Point(*self.probes[i]))]
         return {
             "pos": [None if c is None else float(c) for c in pos],
             "rel": bool(self.g.distance_mode.is_relative),
             "depth": len(t._transforms_stack),
             "ctx": len(self.cms),
             "names": list(t._named_transforms.keys()),
-            "ap": [[float(c) for c in t.apply_transform(Point(*p))] for p in self.probes],
-            "rv": [[float(c) for c in t.reverse_transform(Point(*p))] for p in self.probes],
+            "ap": [ap[i] for i in range(len(self.probes))],
+            "rv": [rv[i] for i in range(len(self.probes))],
         }
 
     def _call(self, op):
